@@ -195,6 +195,9 @@ def busy_responder(sid: str, variant: int) -> dict:
 
 
 def run(ctx: Ctx) -> None:
+    # the synchronous API from application threads, two blocking instances, real time (props/syncapi.py, Trace_SyncApi.tla)
+    from props import syncapi
+    syncapi.run(ctx, 'C07')
     rng = random.Random(ctx.seed * 7919 + 7)
     base = [late_browser('c07-late-%d' % k, k) for k in range(ctx.pick(2, 6))]
     base += [churn('c07-churn-%d' % k, k) for k in range(ctx.pick(8, 16))]
